@@ -19,6 +19,7 @@ import (
 //	chan T / <-chan T / chan<- T      → *vsched.Chan[T]
 //	make(chan T, n)                   → vsched.Make[T]("<func>.<var>", n)
 //	go func() { … }()                 → vsched.Go("<func>#<k>", func() { … })      k-th go statement of <func>
+//	go func(p T) { … }(a)             → { _g := a; vsched.Go("<func>#<k>", func() { var p T = _g; … }) }
 //	ch <- v                           → ch.Send(v)
 //	<-ch ; v, ok := <-ch              → ch.Recv1() ; v, ok := ch.Recv()
 //	for x := range ch { … }           → for x, ok := ch.Recv(); ok; x, ok = ch.Recv() { … }
@@ -28,7 +29,7 @@ import (
 //	x = … inside a go literal, x declared outside it  → … ; vsched.Write("x")
 //	return … x … (outside go literals, x written by a goroutine) → vsched.Read("x"); return …
 //
-// Anything the rewriter does not know how to map (send cases / default in select, go on a non-literal,
+// Anything the rewriter does not know how to map (send cases / default in select, go on a named function,
 // range over a channel with `=`) is an error: the check then reports that the correspondence could
 // not be established instead of silently skipping code.
 func (p *Pkg) RewriteTo(outDir string) error {
@@ -273,17 +274,51 @@ func (k *rw) stmt(s ast.Stmt) ast.Stmt {
 		return &ast.ExprStmt{X: method(k.expr(s.Chan), "Send", k.expr(s.Value))}
 	case *ast.GoStmt:
 		fl, ok := s.Call.Fun.(*ast.FuncLit)
-		if !ok || len(s.Call.Args) != 0 {
-			k.fail(s, "go statement on something other than a parameterless function literal")
+		if !ok || s.Call.Ellipsis.IsValid() || (fl.Type.Results != nil && len(fl.Type.Results.List) > 0) {
+			k.fail(s, "go statement on something other than a function literal without results")
+			return s
+		}
+		// go func(p1 T1, …){ body }(a1, …)  →  { _g1 := a1; …; vsched.Go(site, func(){ var p1 T1 = _g1; _ = p1; …; body }) }
+		// (the arguments are evaluated by the spawning goroutine, the parameters are local to the new one)
+		var pre, bind []ast.Stmt
+		ai := 0
+		for _, f := range fl.Type.Params.List {
+			names := f.Names
+			if len(names) == 0 {
+				names = []*ast.Ident{ast.NewIdent("_")}
+			}
+			for _, n := range names {
+				if ai >= len(s.Call.Args) {
+					k.fail(s, "go statement with fewer arguments than parameters")
+					return s
+				}
+				tmp := ast.NewIdent(k.tmp("g"))
+				pre = append(pre, &ast.AssignStmt{Lhs: []ast.Expr{tmp}, Tok: token.DEFINE, Rhs: []ast.Expr{k.expr(s.Call.Args[ai])}})
+				ai++
+				if n.Name == "_" {
+					pre = append(pre, &ast.AssignStmt{Lhs: []ast.Expr{ast.NewIdent("_")}, Tok: token.ASSIGN, Rhs: []ast.Expr{tmp}})
+					continue
+				}
+				bind = append(bind, &ast.DeclStmt{Decl: &ast.GenDecl{Tok: token.VAR, Specs: []ast.Spec{
+					&ast.ValueSpec{Names: []*ast.Ident{ast.NewIdent(n.Name)}, Type: k.expr(f.Type), Values: []ast.Expr{tmp}}}}},
+					&ast.AssignStmt{Lhs: []ast.Expr{ast.NewIdent("_")}, Tok: token.ASSIGN, Rhs: []ast.Expr{ast.NewIdent(n.Name)}})
+			}
+		}
+		if ai != len(s.Call.Args) {
+			k.fail(s, "go statement with more arguments than parameters")
 			return s
 		}
 		site := k.fn + "#" + strconv.Itoa(k.goCount)
 		k.goCount++
 		k.inGo++
-		k.funcType(fl.Type)
-		fl.Body.List = k.stmtList(fl.Body.List)
+		body := k.stmtList(fl.Body.List)
 		k.inGo--
-		return &ast.ExprStmt{X: &ast.CallExpr{Fun: vs("Go"), Args: []ast.Expr{strLit(site), fl}}}
+		lit := &ast.FuncLit{Type: &ast.FuncType{Params: &ast.FieldList{}}, Body: &ast.BlockStmt{List: append(bind, body...)}}
+		goCall := &ast.ExprStmt{X: &ast.CallExpr{Fun: vs("Go"), Args: []ast.Expr{strLit(site), lit}}}
+		if len(pre) == 0 {
+			return goCall
+		}
+		return &ast.BlockStmt{List: append(pre, goCall)}
 	case *ast.RangeStmt:
 		if !k.p.isChan(s.X) {
 			break
